@@ -63,9 +63,27 @@ def solve_stats(c, i):
 
 SOLVE_FAMILY = {
     "feed_impl": True,
+    "both_profiles": True,
     "nontrivial": lambda c, i: any(l.startswith("t learnt") for l in i) or any(l.startswith("result unsat") for l in i)
     or sum(l.startswith("t assign") for l in i) >= 4,
     "stats": solve_stats,
+    "nt_rules": {
+        "ok4": (lambda c, i, m: any(l.startswith("result ok") for l in i) and any(l.startswith("solution") and len(l.split()) >= 4 for l in i),
+                "distinct cases whose answer is a solution with at least 3 solvables"),
+        "unsat_or_learnt": (lambda c, i, m: any(l.startswith("result unsat") for l in i) or any(l.startswith("t learnt") for l in i),
+                            "distinct cases that ended Unsolvable or learnt at least one clause"),
+        "learnt": (lambda c, i, m: any(l.startswith("t learnt") for l in i), "distinct cases with at least one learnt clause (backtracking happened)"),
+        "ok_after_learning": (lambda c, i, m: any(l.startswith("result ok") for l in i) and any(l.startswith("t learnt") or l == "t clear" for l in i),
+                              "distinct satisfiable cases in which the search learnt a clause or restarted"),
+        "preferred": (lambda c, i, m: any(l == "info preferred-consistent 1" for l in m), "distinct cases where C07's hypothesis holds (preferred closure consistent)"),
+        "bestdirect": (lambda c, i, m: any(l == "info best-direct-applicable 1" for l in m) and any(l.startswith("t learnt") or l == "t clear" for l in i),
+                       "distinct cases where C08's hypothesis holds and the search learnt a clause or restarted"),
+        "calls5": (lambda c, i, m: any(l.startswith("calls") and sum(1 for w in l.split() if w[0] in "cd") >= 5 for l in i),
+                   "distinct cases with at least 5 provider calls"),
+        "soft_rejected_or_accepted": (lambda c, i, m: any(l.startswith("t softfail") for l in i) or any(l.startswith("t runsat") and not l.startswith("t runsat root") for l in i),
+                                      "distinct cases in which at least one soft requirement went through its own run_sat"),
+        "any": (lambda c, i, m: True, "all distinct cases (every case exercises panic/termination checks)"),
+    },
     "compare": split_oracles,
     "shrinkable": "universe",
     "signature": lambda lines, item: re.sub(r"\[[^\]]*\]", "[..]", re.sub(r"\d+", "N", str(item.get("oracle") or item.get("model"))))[:120],
@@ -78,9 +96,97 @@ FAMILIES["soft"] = dict(SOLVE_FAMILY, rule="as `solve` plus 1-4 soft requirement
 FAMILIES["conflictfree"] = dict(SOLVE_FAMILY, rule="as `solve` without locks/exclusions/Unknown/missing packages, biased to version sets matching everything, with favored candidates; "
     "non-trivial additionally requires the preferred candidates to be mutually compatible (C07 hypothesis, decided by the driver)")
 
+FAMILIES["cache"] = {
+    "rule": "generated universes (as `solve`) + 5-40 random public SolverCache calls (get_or_cache_candidates / matching / non_matching / sorted (single and union) / dependencies, are_dependencies_available_for), "
+            "1/3 of the cases with a provider whose sort_candidates calls back into the cache; non-trivial = at least one sorted query and one repeated query; distinct by sha256",
+    "nontrivial": lambda c, i: any(l.startswith("op sorted") for l in c) and len([l for l in c if l.startswith("op ")]) > len(set(l for l in c if l.startswith("op "))),
+    "stats": lambda c, i: {"ops": sum(l.startswith("op ") for l in c), "sorted": sum(l.startswith("op sorted") for l in c),
+                           "peek": int("peek 1" in c), "panics": sum(l.startswith("panic") for l in i)},
+    "compare": exact, "shrinkable": "universe",
+    "signature": lambda lines, item: "cache:" + re.sub(r"\d+", "N", item.get("model", ""))[:30],
+}
+
+FAMILIES["pool"] = {
+    "rule": "random interleavings (5-700 ops, vocabulary 3-400 words, so 128-element chunk boundaries are crossed) of intern_string / intern_package_name / lookup_package_name / intern_solvable / "
+            "intern_version_set / intern_version_set_union / resolve_* (incl. out-of-range ids) on the real Pool; every reference obtained at intern time is re-resolved at `check-stable` points and its "
+            "address and contents compared; non-trivial = more than 128 items interned in one table or a repeated value; distinct by sha256",
+    "nontrivial": lambda c, i: len(c) > 130 or len([l for l in c if l.startswith(("str", "name"))]) > len(set(l for l in c if l.startswith(("str", "name")))),
+    "stats": lambda c, i: {"ops": len(c), "panics": sum(l == "panic" for l in i), "stable_checks": sum(l.startswith("stable") for l in i),
+                           "crossed_chunk": int(max([int(l.split()[1]) for l in i if l.startswith("id ") and l.split()[1] != "-"] + [0]) >= 128)},
+    "compare": exact, "shrinkable": True, "shrink_keep_prefix": 0,
+    "signature": lambda lines, item: "pool:" + re.sub(r"\d+", "N", item.get("model", ""))[:30],
+}
+
 TB_COMMON = []
 
+SOLVE_Q = {"quick": 2500, "thorough": 60000}
+SOFT_Q = {"quick": 2500, "thorough": 60000}
+CF_Q = {"quick": 2500, "thorough": 40000}
+
 PROPS = {
+    "C01": {
+        "nt_rule": "ok4",
+        "level": "other", "module": "Resolvo.Props.C01",
+        "theorems": ["Resolvo.C01.valid_decided", "Resolvo.C01.valid_unfold", "Resolvo.C01.valid_mono_exempt",
+                     "Resolvo.validB_iff", "Resolvo.Abs.mu_satisfies"],
+        "families": [("solve", SOLVE_Q), ("soft", SOFT_Q), ("conflictfree", CF_Q)],
+        "profiles": ["debug", "release"],
+        "explanation": "PROVED (Lean, all inputs): validB decides Valid exactly (the full statement of C01 incl. the soft exemption); every non-learnt clause of an accepted history is satisfied by every valid selection (provenance soundness). "
+                       "CHECKED PER RUN on every generated case (sync runtime; debug and release builds; all hint patterns): validB on the implementation's own answer, and acceptance of the implementation's recorded history by the abstract system. "
+                       "NOT YET PROVED: that the model of the search returns only valid selections for all inputs (refinement obligations R1-R6 of DESIGN 3.6).",
+        "assumptions": ["provider contract WF (candidates carry their package's name, are listed once, have table entries); malformed providers are outside C01"],
+    },
+    "C02": {
+        "nt_rule": "unsat_or_learnt",
+        "level": "proof", "module": "Resolvo.Props.C02",
+        "theorems": ["Resolvo.C02.unsat_certified", "Resolvo.C02.decideSolvable_correct", "Resolvo.C02.ok_solvable",
+                     "Resolvo.C02.verdict_invariant", "Resolvo.Abs.fail_sound", "Resolvo.Sat.rup_sound", "Resolvo.Sat.decideSat'_iff",
+                     "Resolvo.encodeAll_iff", "Resolvo.Abs.step_linv", "Resolvo.Abs.step_sinv"],
+        "families": [("solve", SOLVE_Q), ("soft", SOFT_Q), ("conflictfree", CF_Q)],
+        "explanation": "Proof of a certifying checker: every Unsolvable verdict of the implementation is re-derived by a kernel-verified checker from the implementation's own history (fail_sound), and compared with a verified independent decision procedure (decideSolvable_iff). Termination/completeness of the search (C02 (d)) is not proved.",
+        "assumptions": ["CandsKnown U (listed candidates have table entries) for the reference decision procedure",
+                        "the verif-hooks history is emitted faithfully (an omitted event makes the checker reject, not accept)"],
+    },
+    "C04": {
+        "nt_rule": "any",
+        "level": "other", "module": "Resolvo.Props.C04", "theorems": ["Resolvo.C04.oracle_total"],
+        "families": [("solve", SOLVE_Q), ("soft", SOFT_Q), ("conflictfree", CF_Q)],
+        "profiles": ["debug", "release"],
+        "explanation": "CHECKED PER RUN: every case runs under catch_unwind (solve, Conflict::graph, graphviz, display_user_friendly separately), a per-case watchdog (hang = failure) and an address-space limit (runaway output = failure), in debug-assertion and release builds. PROVED: only the totality/correctness of the oracles. NOT PROVED: termination and panic-freedom of the search for all inputs.",
+        "assumptions": ["well-formed providers only (WF checked by the driver)"],
+    },
+    "C05": {
+        "nt_rule": "ok_after_learning",
+        "level": "other", "module": "Resolvo.Props.C05", "theorems": ["Resolvo.C05.supportedB_sound", "Resolvo.C05.closure_sound"],
+        "families": [("solve", SOLVE_Q), ("soft", SOFT_Q), ("conflictfree", CF_Q)],
+        "explanation": "PROVED: the support closure computed by the oracle only contains supported solvables. CHECKED PER RUN: supportedB on every solution the implementation returns (backtracking-heavy `tight` shape included). NOT YET PROVED: the universal statement for the model of the search.",
+    },
+    "C07": {
+        "nt_rule": "preferred",
+        "level": "other", "module": "Resolvo.Props.C07",
+        "theorems": ["Resolvo.C07.firstChoice_favored", "Resolvo.C07.firstChoice_ranked", "Resolvo.C07.union_order"],
+        "families": [("conflictfree", CF_Q), ("solve", SOLVE_Q)],
+        "explanation": "PROVED: characterisation of the first choice (favored first, then best rank; unions in listed order) in the SolverCache model. CHECKED PER RUN: whenever the driver finds the preferred closure consistent (C07 hypothesis), the implementation's solution must equal it as a set. NOT YET PROVED: the universal statement for the model of the search.",
+    },
+    "C08": {
+        "nt_rule": "bestdirect",
+        "level": "other", "module": "Resolvo.Props.C08", "theorems": ["Resolvo.C08.with_units_iff"],
+        "families": [("solve", SOLVE_Q), ("conflictfree", CF_Q)],
+        "explanation": "PROVED: the hypothesis of C08 is decided exactly (reference encoding + one unit per first choice, verified DPLL). CHECKED PER RUN: when it holds, every first choice of a root requirement must be in the implementation's solution (shapes with conflicts below the root requirements). NOT YET PROVED: universal statement for the model.",
+    },
+    "C09": {
+        "nt_rule": "calls5",
+        "level": "other", "module": "Resolvo.Props.C09", "theorems": ["Resolvo.C09.at_most_once_cache"],
+        "families": [("solve", SOLVE_Q), ("soft", SOFT_Q), ("conflictfree", CF_Q), ("cache", {"quick": 1500, "thorough": 20000})],
+        "explanation": "PROVED: cache-level at-most-once. CHECKED PER RUN: causal order and at-most-once of the provider call log of every sync run without hints; exact call-log correspondence of SolverCache with its model.",
+    },
+    "C14": {
+        "nt_rule": "soft_rejected_or_accepted",
+        "level": "other", "module": "Resolvo.Props.C14", "theorems": ["Resolvo.C14.exempt_only_affects_lock_exclusion", "Resolvo.C14.never_error"],
+        "families": [("soft", {"quick": 4000, "thorough": 80000})],
+        "profiles": ["debug", "release"],
+        "explanation": "PROVED: a history accepted by the abstract system never reports Unsolvable for a solvable hard problem; the exemption affects only the lock/exclusion conjunct. CHECKED PER RUN on the soft family: validB with exemption, verdict vs verified decideSolvable, history acceptance, no panic (debug and release).",
+    },
     "C19": {
         "level": "proof",
         "module": "Resolvo.Props.C19",
@@ -101,5 +207,21 @@ PROPS = {
         "families": [("amo", {"quick": 400, "thorough": 6000})],
         "assumptions": ["helper variables come from a counter distinct from candidate variables (VariableMap::next_id)"],
         "trusted_base": [],
+    },
+    "C18": {
+        "level": "proof", "module": "Resolvo.Props.C18",
+        "theorems": ["Resolvo.C18.alloc_dense", "Resolvo.C18.addr_stable", "Resolvo.C18.resolve_stable", "Resolvo.C18.resolve_new",
+                     "Resolvo.C18.capacity_never_exceeded", "Resolvo.C18.reachable_inv", "Resolvo.C18.tinv_intern", "Resolvo.C18.intern_twice",
+                     "Resolvo.C18.resolve_intern", "Resolvo.C18.ids_injective", "Resolvo.C18.lookup_after_intern", "Resolvo.C18.table_resolve_stable"],
+        "families": [("pool", {"quick": 1500, "thorough": 40000})],
+        "assumptions": ["same (chunk, offset) means same machine address: Vec::with_capacity(CHUNK) does not reallocate below capacity (capacity_never_exceeded shows it is never exceeded)",
+                        "UnsafeCell aliasing rules are not modelled (Miri-explorable, not proved)"],
+    },
+    "C20": {
+        "level": "proof", "module": "Resolvo.Props.C20",
+        "theorems": ["Resolvo.C20.partition", "Resolvo.C20.sorted_members", "Resolvo.C20.sorted_favored", "Resolvo.C20.sorted_unfavored",
+                     "Resolvo.C20.sort_is_sorted", "Resolvo.C20.answer_state_independent", "Resolvo.C20.repeat_no_call", "Resolvo.C20.available_iff"],
+        "families": [("cache", {"quick": 2500, "thorough": 60000})],
+        "assumptions": ["provider contract: filter_candidates is a pure membership filter, sort_candidates a stable sort by a per-solvable key (the table provider of the harness)"],
     },
 }
